@@ -262,6 +262,18 @@ def rand_literal(rng):
             if t[-1] not in ".0":
                 text = t[:-1] + str(int(t[-1]) - 1) + "9999999999999999999"
         return text, text
+    if k < 0.31:
+        # very long digit strings whose exponent compensates for their length (the value itself is moderate): n digits,
+        # optionally a long fraction, and an exponent near -n / +n
+        n = rng.choice([401, 450, 700, 1100, 2000])
+        ip = str(rng.randint(1, 9)) + "".join(rng.choice("0123456789") for _ in range(rng.randint(0, 20))) + "0" * rng.choice([0, n])
+        fr = ""
+        if rng.random() < 0.5:
+            fr = "." + "0" * rng.choice([0, n]) + "".join(rng.choice("0123456789") for _ in range(rng.randint(1, 20)))
+        shift = (len(ip) - 1) if not fr.startswith(".0" * 1 + "0" * 50) else -(len(fr) - 1)
+        e = -shift + rng.randint(-320, 300)
+        text = ip + fr + rng.choice("eE") + str(e)
+        return text, text
     if k < 0.5:
         nd = rng.randint(1, rng.choice([3, 17, 20, 40, 400]))
         ip = "".join(rng.choice("0123456789") for _ in range(nd)).lstrip("0") or "0"
